@@ -426,6 +426,9 @@ def data_generator(data, fun=_data_split, args=(), kwargs=None, MAX_ITER=1000):
             for s_data in zip(*vs):
                 yield list(s_data)
         elif isinstance(dat, tuple):
+            if not dat:
+                for i in range(MAX_ITER):
+                    yield ()
             vs = []
             for v in dat:
                 vs.append(_gen(v))
